@@ -179,6 +179,76 @@ def run(ctx):
     model = run_driver(req)
     ctx.compare('NumPy vs MpycV.Arr (shapes, gather maps)', impl, model, req)
     ctx.count('numpy-model-lines', len(req))
+    item_shape_differential(ctx)
+
+
+def _random_key(rng, nprng, shape):
+    """a random index key for an array of the given shape: ints, slices, None, Ellipsis, int lists / arrays, Python bools and
+    boolean masks of 1 to 3 dimensions (a k-dimensional mask consumes k axes)"""
+    import numpy as onp
+    nd = len(shape)
+    key, ax, used_ell = [], 0, False
+    for _ in range(rng.randrange(0, nd + 3)):
+        r = rng.random()
+        n = shape[ax] if ax < nd else 1
+        adv = 1
+        if r < 0.18:
+            e = rng.randrange(-n, n) if n else 0
+        elif r < 0.40:
+            def ee():
+                return rng.choice([None, rng.randrange(-n - 2, n + 3)])
+            e = slice(ee(), ee(), rng.choice([None, 1, 2, -1]))
+        elif r < 0.48:
+            e, adv = None, 0
+        elif r < 0.58 and not used_ell:
+            e, adv, used_ell = Ellipsis, 0, True
+        elif r < 0.68:
+            e = [rng.randrange(-n, n) for _ in range(rng.randrange(0, 4))] if n else []
+        elif r < 0.76:
+            sh = rng.choice([(), (2,), (1, 2), (2, 1)])
+            e = nprng.integers(-n, n, size=sh) if n else onp.zeros((0,), dtype=int)
+        elif r < 0.80:
+            e, adv = rng.choice([True, False]), 0
+        else:
+            k = rng.choice([1, 1, 2, 2, 3])
+            if ax + k > nd:
+                continue
+            e, adv = nprng.random(shape[ax:ax + k]) < 0.5, k
+        key.append(e)
+        ax += adv
+    key = tuple(key)
+    if len(key) == 1 and rng.random() < 0.5:
+        key = key[0]
+    return key
+
+
+def item_shape_differential(ctx):
+    """the shape mpyc DECLARES for a[key] (mpyc.numpy._item_shape, used by np_getitem for the placeholder) against the shape
+    NumPy gives the value, on random keys (repo fix b9a0237: multi-dimensional masks, ellipsis as separator)"""
+    import numpy as onp
+    from mpyc.numpy import np as mnp
+    rng = ctx.subrng('item-shape')
+    nprng = onp.random.default_rng(rng.randrange(1 << 30))
+    n_ok = 0
+    for _ in range(ctx.scale(30000, 300000)):
+        shape = tuple(rng.randrange(0, 4) for _ in range(rng.randrange(0, 5)))
+        key = _random_key(rng, nprng, shape)
+        try:
+            want = onp.empty(shape)[key].shape
+        except Exception:  # noqa: BLE001  invalid key: not compared
+            continue
+        try:
+            got = mnp._item_shape(shape, key)
+        except Exception as exc:  # noqa: BLE001
+            got = 'raises ' + type(exc).__name__
+        n_ok += 1
+        if got != want:
+            ctx.violation(f'C37: a[key] for a of shape {shape} and key {key!r}: the placeholder is declared with shape {got}, the value '
+                          f'has shape {want} (mpyc.numpy._item_shape vs NumPy)',
+                          {'kind': 'item-shape', 'shape': list(shape), 'key': repr(key), 'declared': str(got), 'numpy': list(want)})
+            return
+    ctx.count('item-shape-keys', n_ok)
+    ctx.case(('item-shape', n_ok), nontrivial=True)
 
 
 def search(ctx):
@@ -194,6 +264,10 @@ def search(ctx):
 
 
 def replay(ctx, data):
+    if data.get('kind') == 'item-shape':
+        c2 = common.Ctx('C37', 'quick', 0) if False else ctx
+        item_shape_differential(c2)
+        return not c2.violations, (c2.violations[0][0] if c2.violations else 'ok: declared shapes agree with NumPy')
     case = {k: data[k] for k in ('op', 'kind', 'm', 'no_prss', 'seed')}
     for k_ in ('workers', 'mix32_64bit'):
         if k_ in data:
